@@ -1,5 +1,5 @@
 import Driver.Loop
-import TrustfallModel.Model.SchemaDoc
+import TrustfallModel.Model.SchemaAdapter
 /-!
 Driver commands of group `schema`.
 
@@ -108,8 +108,60 @@ def renderSchemaNew (doc : Doc) : String :=
   | .ok (.ok _) => "ok"
   | .ok (.error es) => "(err " ++ " ".intercalate (sortStrings (es.map renderErr)) ++ ")"
 
+/-! `(introspect <query> <doc>)` (C20): the rows of one fixed introspection query over the schema
+built from `<doc>`, each row `(row (output cell)…)` with outputs sorted by name, rows sorted as
+strings; cells: `n` | `(s hex)` | `(b 0|1)` | `(json value)`.  `invalid` when the document is not
+accepted, `panic` when validation or a resolver panics. -/
+
+def toQueryId : Sexp → Option QueryId
+  | .atom "types" => some .types
+  | .atom "implements" => some .implements
+  | .atom "implementer" => some .implementer
+  | .atom "properties" => some .properties
+  | .atom "edges" => some .edges
+  | .atom "params" => some .params
+  | .atom "entrypoints" => some .entrypoints
+  | .atom "entry-params" => some .entryParams
+  | .atom "schema-types" => some .schemaTypes
+  | .atom "schema-entrypoints" => some .schemaEntrypoints
+  | .atom "typenames" => some .typenames
+  | .atom "optional-implements" => some .optionalImplements
+  | .list [.atom "by-name", .atom n] => some (.byName n)
+  | .list (.atom "one-of" :: ns) => QueryId.oneOf <$> toNames ns
+  | _ => none
+
+def renderCell : Cell → String
+  | .null => "n"
+  | .str s => s!"(s {Sexp.bytesToHex s.toUTF8.toList})"
+  | .bool b => if b then "(b 1)" else "(b 0)"
+  | .json v => s!"(json {v.render})"
+
+def renderRow (r : Row) : String :=
+  "(row " ++ " ".intercalate (sortStrings (r.map fun (k, c) => s!"({k} {renderCell c})")) ++ ")"
+
+def renderIntrospect (q : QueryId) (doc : Doc) : String :=
+  match Schema.new doc with
+  | .panic _ => "panic"
+  | .ok (.error _) => "invalid"
+  | .ok (.ok s) =>
+    match introspect s q with
+    | .panic _ => "panic"
+    | .ok rows => "(rows" ++ String.join ((sortStrings (rows.map renderRow)).map (" " ++ ·)) ++ ")"
+
 def handleSchema : String → List Sexp → Option String
   | "schema-new", [d] => renderSchemaNew <$> toDoc d
+  | "introspect", [q, d] => do
+    let qid ← toQueryId q
+    let doc ← toDoc d
+    pure (renderIntrospect qid doc)
+  | "adapter-invariants", [d] => do
+    -- `check_adapter_invariants` only panics when an invariant is broken; the model's adapter
+    -- satisfies the contract (`TF.C20.schema_adapter_honest`), so the answer is `ok` on valid schemas
+    let doc ← toDoc d
+    pure (match Schema.new doc with
+      | .panic _ => "panic"
+      | .ok (.error _) => "invalid"
+      | .ok (.ok _) => "ok")
   | _, _ => none
 
 end TF.Driver
